@@ -17,8 +17,9 @@ MANIFEST = {
     'text': 'Coq theorems over an abstract field (all fields, all elements, all public exponents): runtime.pow as coded '
             '(LSB-first square-and-multiply, the b=254 addition chain, reciprocal for negative exponents) equals the power '
             'function; reciprocal by blinding r/(a r) = 1/a for every nonzero mask, retry loop sound and complete; '
-            'is_zero/==/!= via a^(q-1) exact under Fermat (hypothesis, discharged by computation for Z_p p<=257 in the list '
-            'and GF(4)); is_zero_public correct iff mask nonzero; characteristic 2 on d-bit vectors: & = from_bits(schur('
+            'Fermat a^(q-1)=1 proved for ANY finite field given with a duplicate-free complete enumeration of its elements '
+            '(theories/Fermat.v: x->ax permutes the nonzero elements), hence is_zero/==/!= via a^(q-1) exact in every '
+            'enumerated finite field with NO Fermat hypothesis; instantiated for Z_p for every prime p and for GF(4); is_zero_public correct iff mask nonzero; characteristic 2 on d-bit vectors: & = from_bits(schur('
             'to_bits)), | = a+b+(a&b), ~ = a+(2^d-1), ^ = +, masked to_bits exact for every mask, from_bits inverse; prime '
             'fields from_bits(to_bits) roundtrip; lifting: for any field embedding K->L all operators on lifted values '
             'out-convert to the result in the requested field K. Tied to /repo on every run: m-party simulator runs '
@@ -26,8 +27,7 @@ MANIFEST = {
             'from_bits is_zero_public on genuinely shared inputs over GF(p) p in {2,3,5,7,11,101,2^31-1,64-bit}, GF(2^d) '
             'd<=8, GF(9), GF(27), GF(25) incl. lifted SecFld(2),(3),(5),(7) with m>=q, all element pairs for order<=16 in '
             'the (1,0),(3,1) configs, vs plain finfields arithmetic and vs the Coq model (vm_compute) on the same inputs.',
-    'note': 'Partial: Fermat a^(q-1)=1 is a hypothesis of is_zero_fermat for general q (proved by computation for small '
-            'Z_p and GF(4)); lift_correct assumes the embedding is a ring homomorphism inverted by out_conv (discharged for '
+    'note': 'Partial: lift_correct assumes the embedding is a ring homomorphism inverted by out_conv (discharged for '
             'GF(2) in GF(4); other (q,e) by the correspondence run only). The model is value level: sharing/resharing/PRSS '
             'are C11-C16; the secure path of to_bits for prime fields (convert -> secint bits -> convert back) is covered by '
             'the simulator oracle, not modelled. Coq executable instance only for prime fields (ZpOps) and bit vectors; '
